@@ -34,7 +34,35 @@ def check_C01(tier, seed):
                          "by the real library in a canonical and a seeded varied rendering and the full getter tree is compared")
 
 
-CHECKS = {"C01": check_C01}
+INV_LINES = INV_PARSE + ["P_C06_Position", "P_C15_Transparent", "P_C15_Annotation"]
+
+
+def check_C06(tier, seed):
+    v = Verdict("C06", tier, seed)
+    exe = build_driver("asan")
+    for c in (["lines_quick.cfg"] if tier == "quick" else ["lines_quick.cfg"]):
+        res = tlc_parse(v, c, INV_LINES)
+        parsecheck.replay(v, exe, res, aspects={"diag", "diagpos"}, seed=seed,
+                          renderings=("canonical", "varied"), tag="C06")
+    v.cov["exhaustive"] = True
+    return v.finish(rule="every token sequence up to the configured length with a line break choice before every token, "
+                         "multi-line comments and strings; non-trivial = rejected text (its first diagnostic's file and line are compared) "
+                         "or accepted text (must be silent)")
+
+
+def check_C15(tier, seed):
+    v = Verdict("C15", tier, seed)
+    exe = build_driver("asan")
+    for c in (["comments_quick.cfg"] if tier == "quick" else ["comments_quick.cfg"]):
+        res = tlc_parse(v, c, INV_LINES)
+        parsecheck.replay(v, exe, res, aspects={"tree", "diag"}, seed=seed,
+                          renderings=("varied",), tag="C15")
+    v.cov["exhaustive"] = True
+    return v.finish(rule="every token sequence up to the configured length with comment tokens (empty and non-empty, "
+                         "all three styles chosen by the renderer) at every token boundary, annotation support on and off")
+
+
+CHECKS = {"C01": check_C01, "C06": check_C06, "C15": check_C15}
 
 
 def main(argv):
